@@ -129,6 +129,33 @@ def run_reader(ctx, method, lines, index, pressures=None):
     return out
 
 
+def run_reader_text(ctx, method, text_lines, index):
+    """the same whole-method run on LITERAL record lines (strings): str.split, re and float()/int() are the real ones here, so number
+    formats the token model abstracts away (exponent notation, signs, integer-valued coordinates, tabs) are exercised"""
+    import os
+    import tempfile
+    from .common import cls, KEEP
+    SEc = cls(ctx, SE, "SurfaceEvolver")
+    idx = {"get_vertices": 0, "get_edges": 1}[method]
+    bounds = [(0, 0)] * 4
+    bounds[idx] = index
+    ctx.stub(SE + ":SurfaceEvolver.get_first_last", lambda it, a, k: tuple(bounds), "section boundaries (calculate_first_last: bounded stand-in B14)")
+    if ctx.mode == "sym":
+        ctx.stub("builtins.open", lambda it, a, k: FakeFile(list(text_lines)), "a dump file is the list of its lines")
+        se = ctx.alloc(SEc, fname="dump.dmp")
+        return ctx.callm(se, method)
+    f = tempfile.NamedTemporaryFile("w", suffix=".dmp", delete=False)
+    f.write("".join(text_lines))
+    f.close()
+    ctx.apply_stubs = True
+    ctx.stub(SE + ":SurfaceEvolver.get_first_last", lambda it, a, k: tuple(bounds))
+    se = ctx.alloc(SEc, fname=f.name)
+    try:
+        return ctx.callm(se, method)
+    finally:
+        os.unlink(f.name)
+
+
 def col(ctx, df, name):
     if ctx.mode == "sym":
         return list(df.columns[name])
@@ -180,6 +207,27 @@ def o14_2(tier):
         ctx.ensure(ctx.close(fo[0], v["d0"]) and ctx.close(fo[2], v["d2"]), "density field => that value")
         ctx.ensure(ctx.eq(fo[1], 1) and ctx.eq(fo[3], 1), "no density field (three tokens, or another attribute) => 1")
 
+    def h_text(ctx):
+        # literal records as Surface Evolver's %.15g writes them: exponent notation for tiny and huge values, signs, integer-valued numbers
+        ctx.real("unused")          # keeps the sampler happy (the instance has no symbolic input)
+        vlines = ["vertices        /*  coordinates  */    \n",
+                  "  1   173.340016165612  132.347414130987\n",
+                  "  2   2.49999999946709e-05 -25.9807617135332\n",
+                  " 17   -1.5e+03   4E-4  fixed\n",
+                  " 30\t12 -7\n",
+                  "\n"]
+        df = run_reader_text(ctx, "get_vertices", vlines, (0, 5))
+        ids, xs, ys = col(ctx, df, "id"), col(ctx, df, "x"), col(ctx, df, "y")
+        ctx.ensure(ids == [1, 2, 17, 30], "literal vertex records: ids")
+        want = [(173.34, 132.347), (0.0, -25.981), (-1500.0, 0.0), (12.0, -7.0)]
+        ctx.ensure(all(ctx.close(x, w[0]) and ctx.close(y, w[1]) for x, y, w in zip(xs, ys, want)) and len(xs) == 4,
+                   "literal vertex records: coordinates are the VALUES of tokens 1 and 2 (exponent notation, signs, integers) rounded to 3 decimals")
+        elines = ["edges  \n", "  1       1  304      density 1.001 \n", "  2       2  305\n", " 12  17 30   density 2.5e-01  original 3\n", "  7  30 1 fixed\n", "\n"]
+        df = run_reader_text(ctx, "get_edges", elines, (0, 5))
+        ids, id1, id2, fo = (col(ctx, df, k) for k in ("id", "id1", "id2", "force"))
+        ctx.ensure(ids == [1, 2, 12, 7] and id1 == [1, 2, 17, 30] and id2 == [304, 305, 30, 1], "literal edge records: id and the two recorded vertices")
+        ctx.ensure(all(ctx.close(a, b) for a, b in zip(fo, [1.001, 1.0, 0.25, 1.0])) and len(fo) == 4, "literal edge records: density value (also in exponent notation) or 1")
+
     def h_bodies(ctx):
         rows = [[("i", "b0"), ("i", "f0"), "volume", ("r", "v0"), "/*actual:", "500*/", "lagrange_multiplier", ("r", "m0"), "centerofmass"],
                 [("i", "b1"), ("i", "f1"), "volume", ("r", "v1"), "/*actual:", "499.9*/", "lagrange_multiplier", ("r", "m1"), "centerofmass"]]
@@ -188,7 +236,7 @@ def o14_2(tier):
         pr = run_reader(ctx, "get_pressures", lines, (0, 3))
         ctx.ensure(len(ctx.keys(pr)) == 2, "one pressure per body")
         ctx.ensure(ctx.And(ctx.close(ctx.item(pr, v["b0"]), v["m0"]), ctx.close(ctx.item(pr, v["b1"]), v["m1"])), "body id -> its Lagrange multiplier (token 7)")
-    return [("vertex-records", h_vertices), ("edge-records", h_edges), ("body-records", h_bodies)]
+    return [("vertex-records", h_vertices), ("edge-records", h_edges), ("body-records", h_bodies), ("literal-records,exponent-notation", h_text)]
 
 
 @obligation("O14.4", ["C14"], [SE + ":SurfaceEvolver.get_cells"],
